@@ -135,7 +135,9 @@ impl QGramIndex {
         let mut diagonals = collections::HashMap::new();
         for (i, qgram) in self.ranks.qgrams(self.q, pattern).enumerate() {
             for &p in self.qgram_matches(qgram) {
-                let diagonal = p - i;
+                // text position minus pattern position; negative if the hit lies left of
+                // the pattern offset
+                let diagonal = p as isize - i as isize;
                 match diagonals.entry(diagonal) {
                     Entry::Vacant(v) => {
                         v.insert(Match {
